@@ -198,6 +198,53 @@ func checkC14(c *Ctx) {
 			return ""
 		})
 
+	// 2b. within the limits the exchange is left alone: the recorded status goes out as recorded, no
+	//     header is touched, the limit is not latched
+	fns := map[string]*ssa.Function{w.Key + ".Write": wr}
+	if f := w.Methods["Flush"]; f != nil {
+		fns[w.Key+".Flush"] = f
+	}
+	for _, cr := range w.Creators {
+		fns[w.Key+"@"+p.FuncKey(cr)] = cr
+	}
+	for _, key := range sortedKeys(fns) {
+		c.traceRule("within-limits-untouched", key, fns[key], c.rwSpec(w),
+			"on every path that stays within the byte budget the status sent is the recorded one (200 by default), no response header is mutated and the limit is not latched",
+			func(t *Trace) string {
+				if r, _, ok := c.findRel(t, "fld:"+w.Key+".written + len(", "fld:"+w.Key+".limit", 0, -1); ok && r.Lo >= 1 {
+					return "" // over budget: judged by response-budget
+				}
+				if t.Has("status:413") {
+					return "" // over-limit request: judged by request-bound
+				}
+				for _, it := range t.Items {
+					if _, isIf := it.Instr.(*ssa.If); isIf {
+						if o, ok := c.condRel(it).Orient("fld:"+w.Key+".limitReached", ""); ok && o.Y == "" && o.Lo == 1 && o.Hi == 1 {
+							return "" // already latched by an earlier over-budget write
+						}
+					}
+				}
+				start := t.Index("next", 0) + 1 // in the creating closure: what happens once the handler ran
+				for _, it := range t.Items[start:] {
+					switch {
+					case strings.HasPrefix(it.Label, "emb:WriteHeader("):
+						if it.Label != "emb:WriteHeader(fld:"+w.Key+".statusCode)" {
+							return "a response within the limits is sent with a status other than the recorded one: " + it.Label
+						}
+					case strings.HasPrefix(it.Label, "store statusCode := "):
+						if v := strings.TrimPrefix(it.Label, "store statusCode := "); v != "k:200" && !strings.HasPrefix(v, "param:") {
+							return "the recorded status is overwritten (" + v + ") although the byte budget is not exceeded (bodiless responses such as HEAD/304 with a large declared length are rewritten)"
+						}
+					case it.Label == "store limitReached := k:true":
+						return "the limit is latched on a path that does not exceed the byte budget"
+					case strings.HasPrefix(it.Label, "hdr:"):
+						return "size_limit mutates a response header of a response within the limits: " + it.Label
+					}
+				}
+				return ""
+			})
+	}
+
 	// 5. option parsing
 	c.byteLimitOptions()
 }
@@ -581,25 +628,36 @@ func checkC15(c *Ctx) {
 func (c *Ctx) bufferStartsEmpty(w *Wrapper) {
 	p := c.P
 	fr := p.Freshness()
+	// the buffer fields are found by type (bytes.Buffer or a pointer to one), not by name
+	bufField := map[string]bool{}
+	ptrBuf := false
+	if st, _ := w.Named.Underlying().(*types.Struct); st != nil {
+		for i := 0; i < st.NumFields(); i++ {
+			t := st.Field(i).Type()
+			if pt, isPtr := t.Underlying().(*types.Pointer); isPtr {
+				if QualType(namedOf(pt.Elem())) == "bytes.Buffer" {
+					bufField[w.Key+"."+st.Field(i).Name()] = true
+					ptrBuf = true
+				}
+			} else if QualType(namedOf(t)) == "bytes.Buffer" {
+				bufField[w.Key+"."+st.Field(i).Name()] = true
+			}
+		}
+	}
+	if len(bufField) == 0 {
+		return
+	}
 	for _, cr := range w.Creators {
 		ckey := w.Key + "@" + p.FuncKey(cr)
 		var stores []*ssa.Store
 		instrsOf(cr, func(in ssa.Instruction) {
-			if k, st := storeKey(in); k == w.Key+".buf" {
+			if k, st := storeKey(in); bufField[k] {
 				stores = append(stores, st)
 			}
 		})
 		if len(stores) == 0 {
 			// value-typed field of a fresh composite literal: zero value, nothing shared
-			st, _ := w.Named.Underlying().(*types.Struct)
-			shared := false
-			for i := 0; st != nil && i < st.NumFields(); i++ {
-				if st.Field(i).Name() == "buf" {
-					if _, isPtr := st.Field(i).Type().Underlying().(*types.Pointer); isPtr {
-						shared = true // pointer field never assigned here: assigned elsewhere?
-					}
-				}
-			}
+			shared := ptrBuf // pointer field never assigned here: assigned elsewhere?
 			c.Check(!shared, "buffer-starts-empty", ckey, p.Pos(cr.Pos()), "the response buffer is a value field of a freshly allocated writer (empty)", "the response buffer is a pointer that this constructor never initialises")
 			continue
 		}
